@@ -7,6 +7,7 @@ import CqlVerif.Lemmas.GrammarUpdate
 import CqlVerif.Lemmas.GrammarBatch
 import CqlVerif.Lemmas.GrammarPlain
 import CqlVerif.Lemmas.GrammarPlainStmt
+import CqlVerif.Lemmas.GrammarWhere
 /-!
 # C06 — The idempotency classifier is sound, case/whitespace-stable and total
 
@@ -265,5 +266,33 @@ theorem counter_update_not_idempotent (ks : Option Ident) (table kw c c2 : Ident
     (hA : At L 0 (k tkUpdate :: renderName ks table (idt kw :: idt c :: k tkEqual :: idt c2 :: k op :: arg :: rest))) :
     (classify L fuel).idem = false :=
   counter_update ks table kw c c2 op arg rest hkw hop harg L fuel hA
+
+open CqlVerif.Ast in
+/-- **update_where_grammar_sound** — the WHERE clause too: for every `UPDATE [ks.]table SET c = term, … WHERE rel AND rel
+… <tail>` with at least one assignment, relations of the forms `column <op> term` (`= < <= > >= !=`) and `column IN
+(terms)`, any terms of the grammar and any tail, scanned from the start of the input, with any fuel: if the verdict
+is "idempotent" then neither an assigned value nor a term of the WHERE clause contains a call of `now()` / `uuid()`
+at any depth. -/
+theorem update_where_grammar_sound (u : UpdateW) (c : Ident) (t : Term) (as : Assigns) (hops : u.ops = .cons c t as)
+    (hkw : u.setKw.equal "set" = true) (hwf : ∀ r ∈ u.rels, r.wf) (L : Lexer) (fuel : Nat)
+    (hA : At L 0 u.render) (hi : (classify L fuel).idem = true) :
+    u.ops.nonIdem = false ∧ relsNonIdem u.rels = false :=
+  updateW_sound u c t as hops hkw hwf L fuel hA hi
+
+open CqlVerif.Ast in
+/-- non-vacuity: `UPDATE t SET v = ? WHERE k = 1 AND j IN (2, f(x)) <end>` meets the hypotheses (verdict "idempotent");
+with `now()` for `f(x)` in the IN list the verdict is "not idempotent" -/
+example :
+    let upd (fn : List Nat) (args : Args) : UpdateW :=
+      { ks := none, table := { text := [116] }, setKw := { text := [115, 101, 116] },
+        ops := .cons { text := [118] } .bindQ .nil,
+        rels := [.cmp { text := [107] } tkEqual .int,
+                 .inList { text := [106] } (.cons .int (.cons (.call none { text := fn } args) .nil))],
+        tail := [k tkEOF] }
+    (upd [102] (.col { text := [120] } .nil)).setKw.equal "set" = true ∧
+    (classify (lexOf (upd [102] (.col { text := [120] } .nil)).render) 80).idem = true ∧
+    relsNonIdem (upd [110, 111, 119] .nil).rels = true ∧
+    (classify (lexOf (upd [110, 111, 119] .nil).render) 80).idem = false := by
+  decide +kernel
 
 end CqlVerif.C06
